@@ -6,6 +6,9 @@
  *   GE_LOG=<path>       append one line per call: "<i> <len> <hex bytes>" or
  *                       "<i> <len> ERR <errno>" (single write, O_APPEND).
  *   GE_FAIL_FROM=<k>    calls with index >= k fail with errno EIO.
+ *   GE_JITTER_US=<max>  schedule perturbation: every call first sleeps a pseudo-random time below
+ *                       <max> microseconds scaled by a per-thread slowness factor 0..7/4, so that
+ *                       which worker thread of a vanity search wins varies between runs.
  */
 #define _GNU_SOURCE
 #include <dlfcn.h>
@@ -47,7 +50,23 @@ static void log_call(uint64_t i, size_t len, const unsigned char *buf, int err) 
     }
 }
 
+static __thread uint64_t thread_calls = 0;
+
+static void jitter(void) {
+    const char *j = getenv("GE_JITTER_US");
+    if (!j) return;
+    uint64_t max = strtoull(j, NULL, 10);
+    if (max == 0) return;
+    const char *seed_s = getenv("GE_SEED");
+    uint64_t seed = seed_s ? strtoull(seed_s, NULL, 10) : 0x1234;
+    uint64_t tid = (uint64_t)(uintptr_t)&thread_calls; /* distinct per thread */
+    uint64_t slow = splitmix(seed ^ splitmix(tid)) % 8;
+    uint64_t r = splitmix(seed ^ splitmix(tid) ^ (++thread_calls * 0x9e3779b97f4a7c15ULL)) % max;
+    usleep((useconds_t)(r * slow / 4));
+}
+
 int getentropy(void *buffer, size_t len) {
+    jitter();
     uint64_t i = __atomic_fetch_add(&counter, 1, __ATOMIC_SEQ_CST);
     const char *fail_from = getenv("GE_FAIL_FROM");
     if (fail_from && i >= strtoull(fail_from, NULL, 10)) {
